@@ -10,6 +10,10 @@
 (* caller builds a fresh one for the call and drops it (assumption LENT,   *)
 (* kept by every caller in polyform: ApplyAppSchema passes the freshly     *)
 (* unmarshalled document, the metadata endpoint the freshly decoded body). *)
+(* What happens without LENT is shown by the operation "overk" (the caller *)
+(* keeps the map it passed to OverwriteData): TLC refutes Isolated and     *)
+(* Refines even with CopyOut = TRUE (HeapLent configuration) - this is the *)
+(* part of the behaviour that is NOT guaranteed.                           *)
 (*                                                                         *)
 (* Checked by TLC:                                                         *)
 (*   Refines   the heap abstracts to the contract state: tree and every    *)
@@ -43,6 +47,7 @@ HeapDo(o) ==
       [] o.op = "data" -> HandOut(o.h, root) /\ root' = root
       [] o.op = "over" -> /\ LET r == AllocTree(hp, IF o.val.v = MAP THEN o.val.sub ELSE {}) IN hp' = r.hp /\ root' = r.id
                           /\ hdl' = hdl
+      [] o.op = "overk" -> LET r == AllocTree(hp, o.val.sub) IN hp' = r.hp /\ root' = r.id /\ hdl' = [hdl EXCEPT ![o.h] = r.id]
       [] o.op = "hset" -> hp' = SetWalk(hp, hdl[o.h], o.p, 1, [leaf |-> TRUE, x |-> o.val.v]).hp /\ UNCHANGED <<root, hdl>>
       [] o.op = "hdel" -> hp' = DelH(hp, hdl[o.h], o.p).hp /\ UNCHANGED <<root, hdl>>
       [] OTHER -> UNCHANGED <<hp, root, hdl>>
